@@ -86,8 +86,9 @@ Lemma attacked_by_iff p c k :
 Proof.
   unfold attacked_by. split.
   - destruct (attackers p c k) as [|a l] eqn:E; [discriminate|]. intros _.
-    exists a. apply attackers_in. rewrite E. left. reflexivity.
-  - intros [a Ha]. apply attackers_in in Ha. destruct (attackers p c k); [destruct Ha|reflexivity].
+    exists a. apply (proj1 (attackers_in p c k a)). rewrite E. left. reflexivity.
+  - intros [a Ha]. apply (proj2 (attackers_in p c k a)) in Ha.
+    destruct (attackers p c k); [destruct Ha|reflexivity].
 Qed.
 
 Lemma own_at p c a : own p c a = true <-> exists t, at_ p a = Some (t,c).
@@ -95,7 +96,7 @@ Proof.
   unfold own, colour_at. destruct (at_ p a) as [[t c']|].
   - split.
     + intro H. exists t. destruct c, c'; try discriminate H; reflexivity.
-    + intros [t' H]. injection H as _ <-. destruct c; reflexivity.
+    + intros [t' H]. injection H as _ Hc. rewrite Hc. destruct c; reflexivity.
   - split; [discriminate|intros [t H]; discriminate H].
 Qed.
 Lemma occ_at p a x : at_ p a = Some x -> occ p a = true.
@@ -194,9 +195,9 @@ Proof.
       assert (c' = c) by (destruct c, c'; try discriminate Hc; reflexivity). subst c'.
       exists t. split; [reflexivity|]. rewrite Hc, !andb_true_r in H.
       destruct t, o; cbn in H; try discriminate H; tauto.
-    + intros [t' [E H]]. injection E as <- <-.
+    + intros [t' [E H]]. injection E as Et Ec. subst t' c'.
       assert (Hc : color_eqb c c = true) by (destruct c; reflexivity). rewrite Hc, !andb_true_r.
-      destruct H as [->|[[-> ->]|[-> ->]]]; try reflexivity. destruct o; reflexivity.
+      destruct H as [->|[[-> ->]|[-> ->]]]; reflexivity.
   - split; [destruct o; discriminate|intros [t [E _]]; discriminate E].
 Qed.
 
